@@ -226,7 +226,9 @@ theorem responses_process_request (c : Cfg) (s : Sess) (msg : ClientMsg) (hid : 
     rw [process_served c s msg hid svc g m v b h]
     split
     · exact ⟨timeoutMs, .error, by simp [lateMs, timeoutMs], by simp [responses]⟩
-    · exact ⟨(behResult svc g m v b).1, (behResult svc g m v b).2, behResult_fst_le svc g m v b, by simp [responses]⟩
+    · exact ⟨(behResult svc g m v b).1,
+        (if (splitClientRoute msg.route).1 = c.frontType then wireLocal (behResult svc g m v b).2
+         else wireBack (behResult svc g m v b).2), behResult_fst_le svc g m v b, by simp [responses]⟩
 
 theorem responses_process_notify (fx : Fixes) (c : Cfg) (s : Sess) (msg : ClientMsg) (hid : msg.id = 0) :
     responses (processWith fx c s msg) = [] := by
